@@ -11,10 +11,11 @@ import (
 func init() { families["C05"] = runC05 }
 
 type c05Op struct {
-	Op   string `json:"op"`
+	Op   string `json:"op"` // set | del | setfrom (value = the slice GetExtension(src) returns)
 	ID   int    `json:"id"`
 	Len  int    `json:"len"`
 	Salt int    `json:"salt"`
+	Src  int    `json:"src"`
 }
 
 type c05Case struct {
@@ -130,13 +131,18 @@ func runC05(raw json.RawMessage, w *Writer) {
 		var err error
 		val := pat(op.Len, op.Salt+op.ID)
 		r, _ := guard(func() {
-			if op.Op == "set" {
+			switch op.Op {
+			case "set":
 				err = h.SetExtension(uint8(op.ID), val)
-			} else {
+			case "setfrom":
+				// the caller hands the very slice it got from GetExtension(src) to another id
+				val = h.GetExtension(uint8(op.Src))
+				err = h.SetExtension(uint8(op.ID), val)
+			default:
 				err = h.DelExtension(uint8(op.ID))
 			}
 		})
-		w.Emit(Ev{"ev": op.Op, "id": op.ID, "len": op.Len, "salt": op.Salt + op.ID, "res": outcome(r, err),
+		w.Emit(Ev{"ev": op.Op, "id": op.ID, "len": op.Len, "salt": op.Salt + op.ID, "src": op.Src, "res": outcome(r, err),
 			"obs": c05Obs(h), "wire": c05Wire(h)})
 	}
 }
